@@ -161,7 +161,7 @@ func checkRSA(c rsaCase) (string, caseStat) {
 	return "", st
 }
 
-var rsaPrivNames = []string{"rsa2048", "rsa3072"}
+var rsaPrivNames = []string{"rsa2048", "rsa3072", "rsa2047", "rsa2055"}
 
 // TestRSAEncSweep: 5 algorithms x entry point x RSA key x message length {0, 1, max-1,
 // max, max+1, modulus size} x label {none, 7 bytes} (encrypting with the public and the
